@@ -57,6 +57,18 @@ def apk_seeds():
     for p in sorted(glob.glob("/repo/tests/data/APK/*.apk")):
         if 0 < os.path.getsize(p) < 20000:
             out.append((os.path.basename(p), open(p, "rb").read()))
+    # generated archives whose manifest declares every min / target SDK level 1..40 (the constructor loads per-level data for them) and long,
+    # unusual tag and attribute names
+    from vf.model import apkw
+    from vf.model import axmlw as AW
+    A = "http://schemas.android.com/apk/res/android"
+    for lvl in range(1, 41):
+        sdk = AW.Elem(None, "uses-sdk", attrs=[AW.Attr(A, "minSdkVersion", AW.TYPE_INT_DEC, data=max(1, lvl - 3), resid=0x0101020C),
+                                               AW.Attr(A, "targetSdkVersion", AW.TYPE_INT_DEC, data=lvl, resid=0x01010270)])
+        app = AW.Elem(None, "application", children=[AW.Elem(None, "activity", attrs=[AW.Attr(A, "name", AW.TYPE_STRING, value=".Main", resid=0x01010003)])])
+        root = AW.Elem(None, "manifest", nsdecls=[("android", A)], attrs=[AW.Attr(None, "package", AW.TYPE_STRING, value="p.sdk%d" % lvl)], children=[sdk, app])
+        man = AW.build(AW.Doc(root, utf8=bool(lvl % 2)))
+        out.append(("generated-sdk-%d.apk" % lvl, apkw.build_zip([apkw.Entry("AndroidManifest.xml", man, apkw.DEFLATED), apkw.Entry("classes.dex", b"", apkw.STORED)])))
     return out
 
 
@@ -378,6 +390,9 @@ def shard(ctx, arg):
             used = steps.run_with_budget(lambda: fn(s), 50_000_000)
         except steps.BudgetExceeded:
             ctx.violation("%s-valid-seed-exceeds-budget" % kind, "a valid shipped/generated file needs more than 5e7 steps", {"seed": name, "len": len(s)})
+            seed_overruns = locals().get("seed_overruns", 0) + 1
+            if seed_overruns >= 2:
+                break      # settled; every further overrun costs the full budget
             continue
         except BaseException:
             ctx.count("%s_seed_raises" % kind)
@@ -447,14 +462,111 @@ def shard(ctx, arg):
             ctx.sample({"kind": kind, "seed": name, "how": how, "len": len(data), "head": data[:32]})
 
 
+NATIVE_PROBE = r"""
+import sys
+kind, path = sys.argv[1], sys.argv[2]
+data = open(path, 'rb').read()
+from loguru import logger
+logger.remove()
+try:
+    if kind == 'axml':
+        from androguard.core import axml
+        axml.AXMLPrinter(data).get_xml()
+    else:
+        from androguard.core import apk
+        a = apk.APK(data, raw=True)
+        a.get_package(); a.get_activities()
+except BaseException as e:
+    print('raised', type(e).__name__)
+print('finished')
+"""
+
+
+def native_stall_probe(ctx):
+    """Loops inside C code (the regular-expression engine, lxml) produce no Python-level events, so the step budget cannot see them. A small set of
+    name-shaped crafted documents (long tag / attribute / prefix names that are valid up to their last character) is parsed in a process of its own
+    under a wall-clock limit that is >1000x what valid documents need; a timeout is confirmed by a second run with twice the limit before it counts."""
+    import concurrent.futures
+    import subprocess
+    import sys
+    import tempfile
+    from vf.harness import REPO
+    from vf.model import apkw
+    from vf.model import axmlw as AW
+    A = "http://schemas.android.com/apk/res/android"
+    names = ["android.support.v7.widget.ActionMenuPresenter$OverflowMenuButton", "a" * 40 + "$", "a.b." * 12 + "c$", "x" * 64 + ":", "com.example." + "verylongname" * 5 + "!",
+             "_-" * 25 + "?", "A1" * 30 + " ", "p.q.r." * 10 + "\u00e9", "z" * 200 + "$" + "z" * 200, "v" * 35 + "$" + "w" * 35 + "#"]
+    tmp = tempfile.mkdtemp(prefix="vf_c35_native_")
+    cases = []
+    try:
+        for i, nm in enumerate(names):
+            for where in ("tag", "attribute", "prefix"):
+                child = AW.Elem(None, nm if where == "tag" else "activity",
+                                attrs=[AW.Attr(A if where != "attribute" else None, nm if where == "attribute" else "name", AW.TYPE_STRING, value=".Main", resid=0x01010003 if where != "attribute" else None)])
+                root = AW.Elem(None, "manifest", nsdecls=[("android", A)] + ([(nm, "urn:x")] if where == "prefix" else []),
+                               attrs=[AW.Attr(None, "package", AW.TYPE_STRING, value="p.q")], children=[AW.Elem(None, "application", children=[child])])
+                try:
+                    doc = AW.build(AW.Doc(root, utf8=bool(i % 2)))
+                except Exception:
+                    continue
+                for kind, data in (("axml", doc), ("apk", apkw.build_zip([apkw.Entry("AndroidManifest.xml", doc, apkw.DEFLATED)]))):
+                    path = os.path.join(tmp, "%s_%d_%s.bin" % (kind, i, where))
+                    with open(path, "wb") as f:
+                        f.write(data)
+                    cases.append((kind, where, nm, path))
+
+        def one(case, limit):
+            kind, where, nm, path = case
+            t0 = __import__("time").time()
+            try:
+                cp = subprocess.run([sys.executable, "-c", NATIVE_PROBE, kind, path], env=dict(os.environ, PYTHONPATH=REPO), stdout=subprocess.PIPE, stderr=subprocess.DEVNULL, timeout=limit)
+                return "finished" if b"finished" in cp.stdout else "died", __import__("time").time() - t0
+            except subprocess.TimeoutExpired:
+                return "timeout", limit
+        limit = 90
+        confirmed = 0
+        res = []
+        with concurrent.futures.ThreadPoolExecutor(10) as ex:
+            for base in range(0, len(cases), 20):
+                part = list(ex.map(lambda c: one(c, limit), cases[base:base + 20]))
+                res += part
+                if any(st == "timeout" for st, _ in part):
+                    ctx.count("native_probes_not_run_after_a_timeout", len(cases) - len(res))
+                    break      # the verdict is settled by the confirmation below; every further stalling case costs the full limit
+        for case, (st, dt) in zip(cases, res):
+            ctx.ev()
+            ctx.count("native_stall_probes")
+            ctx.maxi("native_probe_max_wall_s_x10", int(dt * 10))
+            if st == "timeout" and confirmed >= 1:
+                ctx.count("native_probe_timeouts_not_confirmed_after_the_first_confirmed_one")
+            elif st == "timeout":
+                confirmed += 1
+                st2, _ = one(case, 2 * limit)
+                if st2 == "timeout":
+                    ctx.violation("%s-no-progress-outside-python-code-long-%s-name" % (case[0], case[1]),
+                                  "parsing a %d-byte document did not finish within %d s and again not within %d s in a process of its own (valid documents need well under a second): "
+                                  "a loop the step counter cannot see (native code)" % (os.path.getsize(case[3]), limit, 2 * limit),
+                                  {"name": case[2], "where": case[1], "data": open(case[3], "rb").read()})
+                else:
+                    ctx.count("native_probe_slow_once")
+            elif st == "died":
+                ctx.count("native_probe_process_died")
+    finally:
+        import shutil
+        shutil.rmtree(tmp, ignore_errors=True)
+
+
 def run(ctx):
+    native_stall_probe(ctx)
     ctx.rule = ("seeds: generated DEX files + every shipped small DEX / binary XML / resources.arsc / APK; hostile inputs = byte/bit/truncation/splice/zero-run mutations, "
                 "4-byte fields set to 0xFFFFFFFF/0x7FFFFFFF/size+-1, crafted files (string data without terminator at end of file, counts at 2^32-1, chunk sizes 0/backwards/huge, "
                 "zip central directories pointing into themselves), DEX checksums re-fixed. Real calls: DEX(b)+bounded walk, AXMLPrinter(b).get_xml(), ARSCParser(b)+resolve, "
                 "APK(b, raw=True)+queries, APK(b, raw=True)+every v2/v3/v3.1 signing-block query on generated and shipped signed APKs whose block has one length field "
                 "made larger/smaller/huge/zero or its tail zeroed, each under a sys.monitoring step budget of 100x the calibrated linear envelope. distinct non-trivial = distinct (parser, mutation kind, size class)")
     ctx.assumptions = ["'bounded by the input size' is operationalised as 'within 100x the (const + ratio*n) step envelope measured on valid inputs in the same run'",
-                       "loops inside C extensions (zlib, lxml, struct) are invisible to the step counter; they would surface as a shard watchdog = inconclusive",
+                       "loops inside C extensions (zlib, lxml, struct, re) are invisible to the step counter; in the mutation shards they would surface as a shard watchdog = inconclusive; "
+                       "the native-stall probe runs 60 name-shaped documents in processes of their own under a 90 s (confirmed: 180 s) wall-clock limit - the only place where a "
+                       "wall-clock limit decides, with a margin of more than 1000x over valid documents",
                        "any exception is an acceptable outcome"]
     per = ({"dex": 2400, "axml": 2400, "arsc": 1200, "apk": 480, "apksig": 1600} if ctx.quick else
            {"dex": 120000, "axml": 120000, "arsc": 60000, "apk": 16000, "apksig": 60000})
